@@ -397,6 +397,9 @@ def run_harness(hname, tier="quick", seed=0, only=None):
     # ---- replay candidates (in the parent, on the unshimmed code)
     known = load_known()
     os.makedirs(os.path.join(EVID, "replays"), exist_ok=True)
+    for fn in os.listdir(os.path.join(EVID, "replays")):
+        if fn.startswith(prop + "-"):
+            os.remove(os.path.join(EVID, "replays", fn))
     mods = shims.load_pyxab()
     if hasattr(hmod, "setup"):
         hmod.setup(mods)
@@ -420,6 +423,17 @@ def run_harness(hname, tier="quick", seed=0, only=None):
                 else:
                     unreplayed.append(rec)
                 continue
+            if not ok and hasattr(hmod, "refine_counterexample"):
+                # the solver's model may be spurious w.r.t. abstracted functions: let the harness look for a
+                # concrete witness near it; only a concretely reproduced input is ever reported
+                for alt in hmod.refine_counterexample(cfg, cand):
+                    res2 = replay_concrete(hmod, cfg, alt, wall_s=10)
+                    if res2["status"] in ("ok", "hang") and reproduces(res2, cand["label"], cand.get("exc")):
+                        ok, res = True, res2
+                        rec["inputs"] = alt
+                        rec["concrete_failures"] = res2["failures"][:5]
+                        rec["note"] = "solver verdict: bound not provable; concrete witness located by grid refinement around the solver model"
+                        break
             if not ok:
                 if cand.get("maybe_infeasible"):
                     st["counters"]["maybe_infeasible_candidates_dropped"] = st["counters"].get("maybe_infeasible_candidates_dropped", 0) + 1
@@ -455,9 +469,11 @@ def run_harness(hname, tier="quick", seed=0, only=None):
             continue
         seen.add(k["id"])
         print("KNOWN-FINDING: property=%s %s [%s] (first seen in config %s, check %s)" % (prop, k["id"], k["what"], cname, lab))
-    for path, rec in violations:
+    for path, rec in violations[:25]:
         print("VIOLATION property=%s replay=%s" % (prop, path))
         print("  config=%s check=%s %s" % (rec["cfg"]["name"], rec["label"], (rec.get("detail") or "")[:200]))
+    if len(violations) > 25:
+        print("  ... and %d more replayed violations (see %s/replays/%s-*.json)" % (len(violations) - 25, EVID, prop))
 
     status = 0
     reasons = []
